@@ -176,9 +176,9 @@ def audit_axioms(pid, tag, imports, names, res):
             f.write(f"#print axioms {nme}\n")
     rc, out = run(["lake", "env", "lean", audit], cwd=LEAN, timeout=1800)
     found = {}
-    for m in re.finditer(r"'([^']+)' depends on axioms: \[([^\]]*)\]", out.replace("\n", " ")):
+    for m in re.finditer(r"'(\S+)' depends on axioms: \[([^\]]*)\]", out.replace("\n", " ")):
         found[m.group(1)] = {a.strip() for a in m.group(2).split(",") if a.strip()}
-    for m in re.finditer(r"'([^']+)' does not depend on any axioms", out):
+    for m in re.finditer(r"'(\S+)' does not depend on any axioms", out):
         found[m.group(1)] = set()
     ok = 0
     for nme in names:
